@@ -170,7 +170,7 @@ func (e *Engine) VerifyLemma(lm *Lemma) (obls []*Obligation, err error) {
 		sb.WriteString(d + "\n")
 	}
 	for _, f := range c.facts {
-		sb.WriteString("(assert " + f + ")\n")
+		sb.WriteString("(assert " + f.S + ")\n")
 	}
 	sb.WriteString("(assert (not " + g.S + "))\n(check-sat)\n")
 	o := &Obligation{Name: shortPkg(lm.Pkg) + ".lemma." + lm.Name, Props: lm.Props, Kind: "lemma", Func: "lemma " + lm.Name, SMT: sb.String(), Desc: lm.C.Src}
